@@ -225,6 +225,12 @@ def run_matrix(ctx, want: str):
             docs = [("", text)]
             if pos == "root":
                 docs.append((" (document element with xsi:nil)", text.replace(f"<{clazz.__name__}", f'<{clazz.__name__} {XSI} xsi:nil="true"', 1)))
+                # ... and announced with the xsi:type of a known class that has NOTHING to do with the requested one: content as it
+                # stands, and (once per kind) content that fits the announced class
+                docs.append((" (document element with the xsi:type of an unrelated class)", text.replace(f"<{clazz.__name__}", f'<{clazz.__name__} {XSI} xsi:type="SOther"', 1)))
+                if shape == "absent":
+                    docs.append((" (document element with the xsi:type and the content of an unrelated class)",
+                                 f'<{clazz.__name__} {XSI} xsi:type="SLeaf"><v>1</v></{clazz.__name__}>'))
             for strict in (False, True):
                 for unknown in (True, False):
                     cfg = ParserConfig(fail_on_converter_warnings=strict, fail_on_unknown_properties=unknown, fail_on_unknown_attributes=strict)
